@@ -322,14 +322,14 @@ func targetClass(v float64) string {
 }
 
 func TestQuickPairs(t *testing.T) {
-	evid.Check(t, "pairs", 24000, 12, func(t *rapid.T) {
+	evid.Check(t, "pairs", 160000, 4, func(t *rapid.T) {
 		c := genPair(t)
 		evid.Judge(t, judgePair(c))
 	})
 }
 
 func TestQuickConv(t *testing.T) {
-	evid.Check(t, "conv", 24000, 12, func(t *rapid.T) {
+	evid.Check(t, "conv", 160000, 4, func(t *rapid.T) {
 		c := genConv(t)
 		evid.Judge(t, judgeConv(c))
 	})
